@@ -35,13 +35,17 @@ type Session struct {
 	cmd     *exec.Cmd
 	in      io.WriteCloser
 	out     *bufio.Reader
-	depth   int
 	log     *os.File
 	timeout int // ms
 	nq      int
 	// script of the current path (for cross-checking on other solvers)
 	script []string
 	gen    int // incremented on every watchdog restart
+	depth  int  // decision levels currently pushed
+	shared int  // decisions shared with the previous path
+	quiet  bool // inside the shared part: commands are recorded but not sent
+	fresh  bool
+	noShare bool
 }
 
 func solverArgs(name string) (string, []string) {
@@ -71,7 +75,8 @@ func NewSession(name string, timeoutMS int, logPath string) (*Session, error) {
 	if err := cmd.Start(); err != nil {
 		return nil, err
 	}
-	s := &Session{name: name, cmd: cmd, in: in, out: bufio.NewReaderSize(out, 1<<16), timeout: timeoutMS}
+	s := &Session{name: name, cmd: cmd, in: in, out: bufio.NewReaderSize(out, 1<<16), timeout: timeoutMS, fresh: true}
+	s.noShare = os.Getenv("GOSYM_SHARE") == "" // prefix sharing between paths is opt-in: z3 is less predictable on deep push stacks
 	if logPath != "" {
 		s.log, _ = os.Create(logPath)
 	}
@@ -113,15 +118,68 @@ func (s *Session) raw(c string) {
 // Cmd sends a command that yields no output and records it in the path script.
 func (s *Session) Cmd(c string) {
 	s.script = append(s.script, c)
-	s.raw(c)
+	if !s.quiet {
+		s.raw(c)
+	}
 }
 
-// ResetPath drops everything asserted for the current path.
-func (s *Session) ResetPath() {
-	s.raw("(pop 1)")
-	s.raw("(push 1)")
+// StartPath prepares the solver for a new path. The solver keeps one assertion
+// level per decision; the levels of the decisions the new path shares with the
+// previous one on this session are kept, and while the (deterministic)
+// re-execution passes through that shared part nothing is sent again.
+func (s *Session) StartPath(prev, next []int) {
+	if s.fresh {
+		s.fresh = false
+		s.quiet = false
+		s.depth = 0
+		s.shared = 0
+		s.script = s.script[:0]
+		return
+	}
+	shared := 0
+	for shared < len(prev) && shared < len(next) && prev[shared] == next[shared] {
+		shared++
+	}
+	if shared > s.depth {
+		shared = s.depth
+	}
+	if s.noShare {
+		// full reset
+		for ; s.depth > 0; s.depth-- {
+			s.raw("(pop 1)")
+		}
+		s.raw("(pop 1)")
+		s.raw("(push 1)")
+		s.shared, s.quiet = 0, false
+		s.script = s.script[:0]
+		return
+	}
+	for ; s.depth > shared; s.depth-- {
+		s.raw("(pop 1)")
+	}
+	s.shared = shared
+	s.quiet = true
 	s.script = s.script[:0]
 }
+
+// AtDecision is called when execution reaches its idx-th decision: the shared part ends at decision s.shared.
+func (s *Session) AtDecision(idx int) {
+	if s.quiet && idx >= s.shared {
+		s.quiet = false
+	}
+}
+
+// PushDecision opens the assertion level of decision idx.
+func (s *Session) PushDecision(idx int) {
+	s.script = append(s.script, "(push 1)")
+	if !s.quiet {
+		s.raw("(push 1)")
+		s.depth++
+	}
+}
+
+// Quiet reports whether execution is inside the part shared with the previous path (already asserted, already checked).
+func (s *Session) Quiet() bool { return s.quiet }
 
 var syncCounter int64
 
@@ -194,9 +252,15 @@ func (s *Session) restart() {
 		s.raw(fmt.Sprintf("(set-option :timeout %d)", s.timeout))
 	}
 	s.raw("(push 1)")
+	s.depth = 0
 	for _, c := range s.script {
 		s.raw(c)
+		if c == "(push 1)" {
+			s.depth++
+		}
 	}
+	s.quiet = false
+	s.shared = 0
 }
 
 type SatResult int
